@@ -509,6 +509,34 @@ void World::table_check(const std::string& op, int64_t touched)
         if (T.range < 2 && rv(got->last_edit_time) != rv(v2::LAST_EDIT_TIME_NONE))
             report("C18", "C18|" + op + "|" + F + "|column:last_edit_time", "last_edit_time set on a schema without the column");
     }
+    // ---- the Information row
+    if (T.info)
+    {
+        std::optional<v2::information_row> gi;
+        Outcome io = call(FaultSpec{}, [&] { gi = T.lib->information().get(); });
+        if (io.threw)
+            report("C18", "C18|" + op + "|" + F + "|information-threw", "information().get() threw " + io.exc + ": " + io.what);
+        else if (gi)
+        {
+            auto bad = [&](const char* col, const std::string& a, const std::string& b) {
+                report("C18", "C18|" + op + "|" + F + "|information:" + col,
+                       std::string("Information.") + col + " reads " + a + ", expected " + b);
+            };
+            auto num = [&](const char* col, int64_t a, int64_t b) {
+                if (a != b)
+                    bad(col, std::to_string(a), std::to_string(b));
+            };
+            num("id", gi->id, T.info->id);
+            if (gi->uuid != T.info->uuid)
+                bad("uuid", gi->uuid, T.info->uuid);
+            num("schemaVersionMajor", gi->schema_version_major, T.info->schema_version_major);
+            num("schemaVersionMinor", gi->schema_version_minor, T.info->schema_version_minor);
+            num("schemaVersionPatch", gi->schema_version_patch, T.info->schema_version_patch);
+            num("currentPlayedIndiciator", gi->current_played_indicator, T.info->current_played_indicator);
+            num("lastRekordBoxLibraryImportReadCounter", gi->last_rekord_box_library_import_read_counter,
+                T.info->last_rekord_box_library_import_read_counter);
+        }
+    }
     // ---- per-column getters of the touched row
     auto it = T.rows.find(touched);
     if (it != T.rows.end())
@@ -768,6 +796,7 @@ std::string World::table_digest()
     guard("information", [&] {
         auto i = T.lib->information().get();
         h.u64((uint64_t)i.id);
+        h.str(i.uuid);
         h.u64((uint64_t)i.schema_version_major);
         h.u64((uint64_t)i.schema_version_minor);
         h.u64((uint64_t)i.schema_version_patch);
@@ -951,7 +980,7 @@ void World::table_sync_from_db()
 
 bool World::exec_table_op(const Step& s)
 {
-    if (s.op.size() < 2 || (s.op[1] != '_') || (s.op[0] != 't' && s.op[0] != 'p' && s.op[0] != 'e'))
+    if (s.op.size() < 2 || (s.op[1] != '_') || (s.op[0] != 't' && s.op[0] != 'p' && s.op[0] != 'e' && s.op[0] != 'i'))
         return false;
     if (!v2 || !tstate || !tstate->lib)
     {
@@ -1307,6 +1336,19 @@ bool World::exec_table_op(const Step& s)
         finish("p_remove", o, 0);
         return true;
     }
+    if (s.op == "i_played")
+    {
+        // the Information row: one writable column through the table API
+        static const int64_t edge[] = {0, 1, -1, INT64_MAX, INT64_MIN, 4294967296ll, 1234567890123ll};
+        int64_t x = (arg(0) & 1) ? edge[(uint64_t)arg(1) % 7] : (int64_t)r.next();
+        Outcome o = call(s.fault, [&] { T.lib->information().update_current_played_indicator(x); });
+        note("i_played " + std::to_string(x) + (o.threw ? " -> threw " + o.exc : " -> ok"));
+        if (!o.threw && T.info)
+            T.info->current_played_indicator = x;
+        probes.hit("information_written");
+        finish("i_played", o, 0);
+        return true;
+    }
     if (s.op == "e_add" || s.op == "e_remove" || s.op == "e_clear")
     {
         int64_t l = pick(T.lists, arg(0));
@@ -1398,7 +1440,8 @@ void World::open_table_library()
         return;
     }
     T.range = schema >= eng::engine_schema::schema_2_20_3 ? 2 : (schema >= eng::engine_schema::schema_2_20_1 ? 1 : 0);
-    T.uuid = T.lib->information().get().uuid;
+    T.info = T.lib->information().get();
+    T.uuid = T.info->uuid;
 }
 
 void World::close_table_library()
